@@ -1,7 +1,6 @@
 (* C09 model driver: runs the extracted marker-level units on header bytes under a
    given partition and prints the same canonical line as `hdr` of harness/c09.c.
      m <savecfg> | <hex> | s1 s2 ... sn        (chunk sizes; the rest is delivered at once) *)
-open X_c09
 let hexbytes s =
   let n = String.length s / 2 in
   List.init n (fun i -> int_of_string ("0x" ^ String.sub s (2 * i) 2))
@@ -57,8 +56,43 @@ let show total s buf =
     s.marker_list;
   Buffer.add_string b (Printf.sprintf " | consumed %d | scans %d" (total - List.length buf) (int_of_z s.input_scan_number));
   print_endline (Buffer.contents b)
+(* `s | <hex> | sizes` : parse the headers, then decode the first scan (sequential Huffman, single scan)
+   with the MCU units under the given partition of the entropy-coded bytes *)
+let cdiv a b = (a + b - 1) / b
+let scan_case hex sizes =
+  let bytes = hexbytes (String.trim hex) in
+  match run_markers [zl bytes] (minit default_procs (List.map nat_of_int (Array.to_list (Array.make 17 0)))) with
+  | Halted (s, buf) ->
+      let c = List.map il s.cells in
+      let g r i = List.nth (List.nth c r) i in
+      let w = g 0 5 and h = g 0 4 and nc = g 0 6 and cis = g 0 7 and ri = g 0 12 in
+      let hs = List.init nc (fun i -> g 2 i) and vs = List.init nc (fun i -> g 3 i) in
+      let hmax = List.fold_left max 1 hs and vmax = List.fold_left max 1 vs in
+      let comp i = g 7 i - 1 in
+      let nblk, nmcu =
+        if cis = 1 then
+          let ci = comp 0 in
+          ([1], cdiv (cdiv (w * List.nth hs ci) hmax) 8 * cdiv (cdiv (h * List.nth vs ci) vmax) 8)
+        else (List.init cis (fun i -> List.nth hs (comp i) * List.nth vs (comp i)), cdiv w (8 * hmax) * cdiv h (8 * vmax)) in
+      let bls = scan_blocks s (List.map nat_of_int nblk) in
+      let data = il buf in
+      let cs = List.map zl (chunks sizes data) in
+      (match run_scan bls cs (hinit (nat_of_int cis) (z_of_int ri) (nat_of_int nmcu)) with
+       | Halted (hs, _) ->
+           let hsh = ref 0xCBF29CE484222325L in
+           List.iter (fun mcu -> List.iter (fun blk -> List.iter (fun v ->
+               let v = int_of_z v in
+               for k = 0 to 3 do
+                 hsh := Int64.mul (Int64.logxor !hsh (Int64.of_int ((v asr (8 * k)) land 255))) 0x100000001B3L done) blk) mcu) hs.h_out;
+           Printf.printf "S nmcu=%d hash=%016Lx warn=%d\n" (List.length hs.h_out) !hsh (int_of_nat hs.h_warn)
+       | Susp (hs, b, _) -> Printf.printf "S susp left=%d unread=%d\n" (int_of_nat hs.h_left) (List.length b)
+       | Failed _ -> print_endline "S resync"
+       | OutOfFuel -> print_endline "S fuel")
+  | _ -> print_endline "S header"
+
 let () = iter_lines (fun line ->
   match fields line with
+  | [ "s"; hex; sizes ] -> scan_case hex (ints sizes)
   | [ hd; hex; sizes ] ->
       (match words hd with
        | [ "m"; sv ] ->
